@@ -456,12 +456,37 @@ func levelFunc(recv, name string, extra map[string]shim) transFunc {
 	if recv != "" {
 		f.recvAs = levelSelf
 	}
+	if name == "String" || name == "CapitalString" { // `String` is a Lean type
+		f.lean = "Level" + name
+	}
 	return f
 }
 
 // level.UnmarshalText(…) on an addressable local Level: the callee's pointee field is "lvl", its nil flag "isnil"
 var levelUnmarshalOnLocal = map[string]shim{"i8.UnmarshalText": {kind: "funaddr", f: "UnmarshalText", res: []string{"error"},
 	flds: []string{"lvl"}, with: []string{"isnil"}}}
+
+// ---- http_handler.go: the decision structure of the level endpoint.  The request is the record [Method, Header, Body];
+// net/http (FormValue, Header.Get, WriteHeader), encoding/json (Decode, Encode) are parameters / recorded intrinsics; the
+// AtomicLevel's current level is the pseudo-field "#level".
+func httpFunc(recv, name string, extra map[string]shim) transFunc {
+	return transFunc{file: "http_handler.go", recv: recv, name: name, lean: name,
+		fields: map[string]fieldSpec{"#level": {"level", "i8"}, "#ev": {"ev", "[]Event"}},
+		types: map[string]string{"zapcore.Level": "i8", "*http.Request": "ptr:struct:Request", "http.ResponseWriter": "ResponseWriter",
+			"io.Reader": "Reader", "struct{Level}": "struct:putPayload", "payload": "struct:payload", "errorResponse": "struct:errorResponse"},
+		structs: map[string][]fieldSpec{
+			"Request":       {{"Method", "string"}, {"Header", "Header"}, {"Body", "Reader"}, {"Rest", "RequestRest"}},
+			"putPayload":    {{"Level", "opt:i8"}},
+			"payload":       {{"Level", "i8"}},
+			"errorResponse": {{"Error", "string"}},
+		},
+		consts: map[string]string{"http.MethodGet": "str:GET", "http.MethodPut": "str:PUT",
+			"http.StatusBadRequest": "400", "http.StatusMethodNotAllowed": "405"},
+		calls: merge(map[string]shim{
+			"errors.New": {kind: "ext", f: "errors.New", res: []string{"error"}},
+			"fmt.Errorf": {kind: "ext", f: "fmt.Errorf", res: []string{"error"}},
+		}, extra)}
+}
 
 var transSpecs = []transSpec{
 	{table: "TransLevel", funcs: []transFunc{
@@ -479,6 +504,27 @@ var transSpecs = []transSpec{
 			".(leveledEnabler)":    {kind: "extstmt", f: "assert.leveledEnabler", res: []string{"LeveledEnabler", "bool"}},
 			"LeveledEnabler.Level": {kind: "ext", f: "LeveledEnabler.Level", res: []string{"i8"}},
 			"LevelEnabler.Enabled": {kind: "ext", f: "LevelEnabler.Enabled", res: []string{"bool"}},
+		}),
+		httpFunc("", "decodePutURL", merge(levelUnmarshalOnLocal, map[string]shim{
+			"ptr:struct:Request.FormValue": {kind: "ext", f: "Request.FormValue", res: []string{"string"}},
+		})),
+		httpFunc("", "decodePutJSON", map[string]shim{
+			// json.NewDecoder(body).Decode(&pld): what the decoder leaves in pld.Level (nil / a level) and its error
+			"json.NewDecoder(body).Decode": {kind: "mutarg:0", f: "json.Decode", xargs: []string{"body"}, res: []string{"error"}},
+		}),
+		httpFunc("", "decodePutRequest", map[string]shim{
+			"decodePutURL":  {kind: "fun", f: "decodePutURL", res: []string{"i8", "error"}},
+			"decodePutJSON": {kind: "fun", f: "decodePutJSON", res: []string{"i8", "error"}},
+		}),
+		httpFunc("AtomicLevel", "serveHTTP", map[string]shim{
+			"json.NewEncoder":            {kind: "ext", f: "json.NewEncoder", res: []string{"JsonEncoder"}},
+			"JsonEncoder.Encode":         {kind: "extstmt", f: "json.Encode", res: []string{"error"}, trace: "#ev"},
+			"ResponseWriter.WriteHeader": {kind: "extstmt", f: "ResponseWriter.WriteHeader", trace: "#ev"},
+			"Header.Get":                 {kind: "ext", f: "Header.Get", res: []string{"string"}},
+			"error.Error":                {kind: "ext", f: "error.Error", res: []string{"string"}},
+			"recv.Level":                 {kind: "ext", f: "id", with: []string{"#level"}, res: []string{"i8"}},
+			"recv.SetLevel":              {kind: "extfld", f: "set", flds: []string{"#level"}},
+			"decodePutRequest":           {kind: "fun", f: "decodePutRequest", res: []string{"i8", "error"}},
 		}),
 	}},
 	// the CTR self-test: probe functions of the harness, translated like any whitelisted function
